@@ -329,6 +329,73 @@ fn run_checkip(c: &VCase) -> Verdict {
     v
 }
 
+// ---------------------------------------------------------------------------
+// validation::RateLimiter::check_ip, paced: one source spends its burst, then asks exactly as fast as tokens
+// accrue until it is one short of the window maximum, goes idle until the bucket is full again, and asks for a
+// whole burst more - all inside one window, with the limiter's housekeeping (cleanup) running in between.
+// ---------------------------------------------------------------------------
+#[derive(Debug, Clone, Serialize, Deserialize)]
+pub struct PacedCase {
+    max: u8,
+    burst: u8,
+    window_ms: u16,
+    /// 0 no housekeeping, 1 explicit cleanup() calls, 2 cleanup_interval of 20 ms
+    cleanup: u8,
+}
+fn run_paced(c: &PacedCase) -> Verdict {
+    let mut v = Verdict::new();
+    let max = (c.max as u32).clamp(3, 12);
+    let burst = (c.burst as u32).clamp(1, max - 1);
+    let window = Duration::from_millis((c.window_ms as u64).clamp(600, 1500));
+    let token = window / max; // time in which one token accrues
+    let rl = RateLimiter::new(RateLimitConfig { window, max_requests: max, burst_size: burst, adaptive: false, cleanup_interval: if c.cleanup % 3 == 2 { Duration::from_millis(20) } else { Duration::from_secs(300) } });
+    // let the global bucket's window start well before the source's, so that it does not hit its own maximum
+    // at the same moment (it shares the configuration)
+    std::thread::sleep(window / 2);
+    let ip = IpAddr::V4(Ipv4Addr::new(10, 9, 8, 7));
+    let first = Instant::now();
+    let mut admitted = 0u64;
+    let ask = |v: &mut Verdict, admitted: &mut u64, what: &str| {
+        let ok = rl.check_ip(&ip).is_ok();
+        if ok {
+            *admitted += 1;
+        }
+        // windows are at least `window` long and the source's first one began after `first` was taken
+        let el = first.elapsed();
+        let windows = (el.as_nanos() / window.as_nanos().max(1)) as u64 + 1;
+        let b = max as u64 * windows;
+        v.check(*admitted <= b, &format!("{ID}/RateLimiter::check_ip/per-ip-window-maximum-exceeded"), || format!("{} requests of one source admitted {el:?} after its first one (window {window:?}, max {max}, burst {burst}); step: {what}", *admitted));
+        let (a, _) = upper(max, burst, window, el);
+        v.check(*admitted as f64 <= a, &format!("{ID}/RateLimiter::check_ip/per-ip-bound-exceeded"), || format!("{} admitted after {el:?}; burst+refill bound {a:.3}", *admitted));
+    };
+    for _ in 0..burst {
+        ask(&mut v, &mut admitted, "initial burst");
+    }
+    for _ in 0..(max - 1).saturating_sub(burst) {
+        std::thread::sleep(token + Duration::from_millis(2));
+        ask(&mut v, &mut admitted, "paced");
+    }
+    // idle until the bucket has refilled to its full burst
+    std::thread::sleep(token * burst + Duration::from_millis(3));
+    if c.cleanup % 3 == 1 {
+        rl.cleanup();
+    }
+    for _ in 0..=burst {
+        ask(&mut v, &mut admitted, "after the idle period");
+    }
+    if c.cleanup % 3 == 1 {
+        rl.cleanup();
+        ask(&mut v, &mut admitted, "after a second cleanup");
+    }
+    let in_one_window = first.elapsed() < window;
+    v.nt(in_one_window);
+    v.class(["no_housekeeping", "explicit_cleanup", "short_cleanup_interval"][(c.cleanup % 3) as usize]);
+    if !in_one_window {
+        v.class("ran_past_the_window(machine slow, bound vacuous)");
+    }
+    v
+}
+
 fn ecfg() -> impl Strategy<Value = ECfg> {
     (1u32..=20, 1u32..=20, 0u8..3).prop_map(|(max, burst, window)| ECfg { max, burst, window })
 }
@@ -358,6 +425,9 @@ pub fn run(run: &Run) {
 
     let vcase = (ecfg(), prop::collection::vec((0u8..32, any::<u8>()), 1..len)).prop_map(|(cfg, ops)| VCase { cfg, ops });
     run.prop("check_ip", run.tier.pick(300, 12000), sh, vcase, run_checkip);
+    run.set_rule("check_ip_paced", "one source against validation::RateLimiter (max 3..12, burst < max, window 0.6..1.5 s): burst, then one request per token interval up to max-1, an idle period that refills the bucket, then burst+1 more, with no housekeeping / explicit cleanup() / a 20 ms cleanup interval; admitted requests of the source are bounded by max per window counted from before its first request; non-trivial = the whole sequence ran inside one window");
+    let pcase = (3u8..=12, 1u8..=11, 600u16..=1500, 0u8..3).prop_map(|(max, burst, window_ms, cleanup)| PacedCase { max, burst, window_ms, cleanup });
+    run.prop("check_ip_paced", run.tier.pick(32, 400), sh, pcase, run_paced);
 }
 
 pub fn replay(run: &Run, sub: &str, case: &Value) -> Option<bool> {
@@ -365,6 +435,7 @@ pub fn replay(run: &Run, sub: &str, case: &Value) -> Option<bool> {
         "engine" => Some(run.eval_case("replay/engine", &from_value::<ECase>(case)?, &run_engine)),
         "join" => Some(run.eval_case("replay/join", &from_value::<JCase>(case)?, &run_join)),
         "check_ip" => Some(run.eval_case("replay/check_ip", &from_value::<VCase>(case)?, &run_checkip)),
+        "check_ip_paced" => Some(run.eval_case("replay/check_ip_paced", &from_value::<PacedCase>(case)?, &run_paced)),
         _ => None,
     }
 }
